@@ -480,6 +480,10 @@ pub fn decblk(rec: &mut Recorder, rng: &mut Rng, thorough: bool) {
                 rec.count(&format!("decblk_overhead_{}", h.min(3)));
                 rec.put(&req, &outs.iter().map(res_str).collect::<Vec<_>>().join(" "));
                 rec.put(&req.replacen("decblk ", &format!("decblkpi {} ", if sparse { "sparse" } else { "dense" }), 1), &outs.iter().map(res_str).collect::<Vec<_>>().join(" "));
+                if k <= 120 {
+                    // … and with every solver run of the model certified (left-inverse replay / verified oracle)
+                    rec.put(&req.replacen("decblk ", &format!("decblkpi {}ck ", if sparse { "sparse" } else { "dense" }), 1), &outs.iter().map(res_str).collect::<Vec<_>>().join(" "));
+                }
             }
             Err(_) => {
                 rec.impl_violation(format!("block decoder panics on genuine packets K={k} T={t} N={nn} Al={al} sparse={sparse}"));
@@ -1065,6 +1069,7 @@ pub fn fastpath(rec: &mut Recorder, rng: &mut Rng, thorough: bool) {
                 rec.put(&req_stream, &stream.iter().map(res_str).collect::<Vec<_>>().join(" "));
                 rec.put(&req_bulk, &res_str(&bulk[0]));
                 rec.put(&req_bulk.replacen("decblk ", &format!("decblkpi {} ", if sparse { "sparse" } else { "dense" }), 1), &res_str(&bulk[0]));
+                rec.put(&req_bulk.replacen("decblk ", &format!("decblkpi {}ck ", if sparse { "sparse" } else { "dense" }), 1), &res_str(&bulk[0]));
                 rec.put(&format!("deccase {k} {t} {}", req_bulk.rsplit(' ').next().unwrap()), if bulk[0].is_some() { "Rq.DecCase.c3b" } else { "Rq.DecCase.c3fail" });
                 rec.count(if bulk[0].is_some() { "fastpath_full_solve_succeeds" } else { "fastpath_both_fail" });
             }
